@@ -7,6 +7,7 @@
 #include "bkp_common.h"
 str_t g_victim_path;               /* absolutePath of the victim */
 str_t g_gx_str; int g_gx_val;      /* string <-> integer link of the most recent getxattr result */
+_Bool g_xa_numeric[6]; _Bool g_gx_numeric;   /* whether a pre-existing value reads as an int at all (user.* xattrs are writable by the cgroup's owner) */
 str_t g_ts_str; int g_ts_val;      /* string <-> integer link of the most recent to_string result */
 opt_vec_str_t nondet_opt_vec_str_t(void); opt_CgroupContext nondet_opt_CgroupContext(void);
 maybe_vec_str_t nondet_maybe_vec_str_t(void); maybe_vec_int nondet_maybe_vec_int(void);
@@ -115,7 +116,7 @@ int ext__stoi(str_t s)
   int v = nondet_int();
   if (s == PROCS_LINE) { __CPROVER_assume(FROM_PROCS(v)); return v; }   /* the number on a line of the victim's cgroup.procs */
   if (s == STR_0) return 0;
-  if (s == g_gx_str) return g_gx_val;            /* a pre-existing xattr value read as an integer */
+  if (s == g_gx_str) { if (!g_gx_numeric) ghost_exc = nondet_bool() ? EXC_invalid_argument : EXC_out_of_range; return g_gx_val; }   /* a pre-existing xattr value read as an integer: std::stoi throws on text that is not an int */
   return v;
 }
 #define CONTRACT_getAndTryToKillPids \
@@ -155,7 +156,7 @@ maybe_str_t Fs__getxattr(str_t path, str_t attr)
   __CPROVER_assert(i < XA_N, "only the six oomd attributes are touched");
   maybe_str_t r;
   r.err = 0;
-  if (g_xa_present[i]) { r.ok = 1; r.val = nondet_str(); __CPROVER_assume(r.val != STR_EMPTY && r.val != STR_0 && r.val != PROCS_LINE); g_gx_str = r.val; g_gx_val = g_xa_prev[i]; }
+  if (g_xa_present[i]) { r.ok = 1; r.val = nondet_str(); __CPROVER_assume(r.val != STR_EMPTY && r.val != STR_0 && r.val != PROCS_LINE); g_gx_str = r.val; g_gx_val = g_xa_prev[i]; g_gx_numeric = g_xa_numeric[i] != 0; }
   else if (nondet_bool()) { r.ok = 1; r.val = STR_EMPTY; }
   else { r.ok = 0; r.err = EXC_system_error; }
   return r;
@@ -179,14 +180,14 @@ str_t ext__to_string__int(int v) { str_t s = nondet_str(); __CPROVER_assume(s !=
 
 #define XA_WF (g_xa_prev[XA_OOMS_T] >= 0 && g_xa_prev[XA_OOMS_T] < (1 << 30) && g_xa_prev[XA_OOMS_U] >= 0 && g_xa_prev[XA_OOMS_U] < (1 << 30) && \
                g_xa_prev[XA_KILL_T] >= 0 && g_xa_prev[XA_KILL_T] < (1 << 30) && g_xa_prev[XA_KILL_U] >= 0 && g_xa_prev[XA_KILL_U] < (1 << 30))
-#define XA_BASE(i) (g_xa_present[i] ? g_xa_prev[i] : 0)
+#define XA_BASE(i) ((g_xa_present[i] && g_xa_numeric[i]) ? g_xa_prev[i] : 0)     /* absent, or not a count: counting starts over */
 #define XA_KEEP(i) (g_xa_sets[i] == __CPROVER_old(g_xa_sets[i]) && g_xa_written[i] == __CPROVER_old(g_xa_written[i]) && g_xa_written_str[i] == __CPROVER_old(g_xa_written_str[i]))
-#define XA_ASSIGNS g_xa_sets, g_xa_written, g_xa_written_str, g_gx_str, g_gx_val, g_ts_str, g_ts_val, g_side_effects
+#define XA_ASSIGNS g_xa_sets, g_xa_written, g_xa_written_str, g_gx_str, g_gx_val, g_gx_numeric, g_ts_str, g_ts_val, g_side_effects, ghost_exc, ghost_exc_caught
 
 str_t BaseKillPlugin__getxattr(BaseKillPlugin *self, str_t path, str_t attr)
   __CPROVER_requires(path == g_victim_path && xa_index(attr) < XA_N && ghost_exc == 0)
-  __CPROVER_assigns(g_gx_str, g_gx_val)
-  __CPROVER_ensures(g_xa_present[xa_index(attr)] ? (__CPROVER_return_value == g_gx_str && g_gx_val == g_xa_prev[xa_index(attr)] &&
+  __CPROVER_assigns(g_gx_str, g_gx_val, g_gx_numeric)
+  __CPROVER_ensures(g_xa_present[xa_index(attr)] ? (__CPROVER_return_value == g_gx_str && g_gx_val == g_xa_prev[xa_index(attr)] && (g_gx_numeric != 0) == (g_xa_numeric[xa_index(attr)] != 0) &&
                                                    __CPROVER_return_value != STR_EMPTY && __CPROVER_return_value != STR_0 && __CPROVER_return_value != ((str_t)7))
                                                  : __CPROVER_return_value == STR_EMPTY)
   __CPROVER_ensures(ghost_exc == 0);
@@ -327,7 +328,7 @@ maybe_int BaseKillPlugin__tryToKillCgroup(BaseKillPlugin *self, CgroupContext ta
   __CPROVER_decreases(tries)
 
 #define HAVOC_KILL() do { HAVOC(g_victim); HAVOC(g_victim_path); HAVOC(g_side_effects); HAVOC(g_kill_calls); HAVOC(g_kill_ok); HAVOC(g_pos_pids); HAVOC(g_procs_fd); \
-  __CPROVER_havoc_object(g_xa_present); __CPROVER_havoc_object(g_xa_prev); __CPROVER_havoc_object(g_xa_sets); __CPROVER_havoc_object(g_xa_written); __CPROVER_havoc_object(g_xa_written_str); HAVOC(g_gx_str); HAVOC(g_gx_val); \
+  __CPROVER_havoc_object(g_xa_present); __CPROVER_havoc_object(g_xa_numeric); __CPROVER_havoc_object(g_xa_prev); __CPROVER_havoc_object(g_xa_sets); __CPROVER_havoc_object(g_xa_written); __CPROVER_havoc_object(g_xa_written_str); HAVOC(g_gx_str); HAVOC(g_gx_val); \
   HAVOC(g_ts_str); HAVOC(g_ts_val); HAVOC(g_ctl_writes); HAVOC(g_reaps); HAVOC(g_kill_file_written); HAVOC(g_last_now); HAVOC(ghost_exc); HAVOC(ghost_errno); } while (0)
 #define CANARY __CPROVER_assert(0, "canary: contract precondition satisfiable and function exit reachable")
 void h_tryToKillPids(void) { BaseKillPlugin *self; vec_int p; HAVOC_KILL(); BaseKillPlugin__tryToKillPids(self, p); CANARY; }
